@@ -248,6 +248,34 @@ def case_rotation_axis(ctx):
     ctx.require("rotation:axis-representative", R.proportional(ctx, E(T1.array), E(T2.array)))
 
 
+SC_CONICS = [[[1, 0, -2], [0, 1, 0], [-2, 0, 3]], [[0, 1, 0], [1, 0, 0], [0, 0, -2]], [[1, 0, 0], [0, 1, 0], [0, 0, -1]], [[1, 0, 1], [0, 0, 0], [1, 0, -3]]]
+SC_LINES = [[0, 1, 0], [1, 0, -2], [0, 1, -1], [1, -1, 0]]
+
+
+def mk_conic_scaled(k, j):
+    """Conic(lam * A) (lam != 0 free, either sign) meets / touches a lattice line in the same points as Conic(A)"""
+    def case(ctx):
+        from geometer import Conic, Line
+        A = SC_CONICS[k]
+        lam = ctx.real("lam")
+        ctx.assume(ctx.neg(ctx.is_zero(lam)))
+        L = Line(ctx.const(SC_LINES[j], float))
+        ref = [E(p) for p in Conic(ctx.const(A, float)).intersect(L)]
+        C = Conic(mk_array(ctx, [[lam * x for x in r] for r in A]))
+        pts = [E(p) for p in C.intersect(L)]
+        ctx.outcome(f"n={len(pts)}/{len(ref)}")
+        ctx.require("conic-scaled:same-number-of-points", len(pts) == len(ref))
+        for i, p in enumerate(pts):
+            ctx.require(f"conic-scaled:point[{i}]-nonzero", R.nonzero(ctx, p))
+        if len(pts) == len(ref) == 2:
+            direct = ctx.all([R.proportional(ctx, pts[0], ref[0]), R.proportional(ctx, pts[1], ref[1])])
+            swapped = ctx.all([R.proportional(ctx, pts[0], ref[1]), R.proportional(ctx, pts[1], ref[0])])
+            ctx.require("conic-scaled:same-points", ctx.any([direct, swapped]))
+        elif len(pts) == len(ref) == 1:
+            ctx.require("conic-scaled:same-points", R.proportional(ctx, pts[0], ref[0]))
+    return case
+
+
 def cases(tier, seed):
     from geometer import join, meet, crossratio, dist, is_collinear, is_perpendicular
     Q, T = ("quick", "thorough"), ("thorough",)
@@ -261,6 +289,9 @@ def cases(tier, seed):
     add("eq_Transformation3", case_eq("Transformation", 3), tiers=T, max_paths=20000)
     add("eq_Quadric3", case_eq("Quadric", 3), tiers=T, max_paths=20000)
     add("rotation_axis_representative", case_rotation_axis, tiers=Q, max_paths=2000)
+    for k in range(len(SC_CONICS)):
+        for j in range(len(SC_LINES)):
+            add(f"conic{k}_scaled_x_line{j}", mk_conic_scaled(k, j), tiers=Q, max_paths=2000)
     rel = [
         ("contains2d", b_lp, lambda l, p: l.contains(p), [0, 1], Q),
         ("contains3d", b_ep, lambda e, p: e.contains(p), [0, 1], Q),
